@@ -103,6 +103,15 @@ theorem never_points_at_itself (host : String) (st : NodeState) (cs : ClusterSta
     Act.changeMaster host ∉ repairCascade host st cs i := by
   exact CascadeLemmas.rc_never_points_at_itself host st cs i
 
+/-- a cascade replica without a replica status whose configured source is the replica itself is pointed at
+the recorded master instead (since the fix: 7075e36; before it this was the explicit panic of
+`performChangeMaster`): no panic, and the first action is `changeMaster i.master` -/
+theorem blind_branch_self_reference_falls_back (host : String) (st : NodeState) (cs : ClusterState) (i : In)
+    (hs : st.slave = none) (hsf : i.streamFrom = host) (hm : i.master ≠ host) :
+    (∀ site, Act.panic site ∉ repairCascade host st cs i) ∧
+    (repairCascade host st cs i).head? = some (.changeMaster i.master) := by
+  exact CascadeLemmas.rc_blind_self_reference host st cs i hs hsf hm
+
 /-- on split brain the emergency marker is written and nothing is moved -/
 theorem splitbrain_emerge_no_move (host : String) (st : NodeState) (cs : ClusterState) (i : In)
     (h : Act.writeEmerge ∈ repairCascade host st cs i) : ∀ to, Act.changeMaster to ∉ repairCascade host st cs i := by
@@ -130,5 +139,11 @@ private def onGhost : NodeState := { pingOk := true, slave := some { lag := some
 private def cs1 : ClusterState := [("m", { pingOk := true, isMaster := true }), ("c1", onGhost)]
 example : findBestStreamFrom 300 "c1" cs1 "m" [("c1", "ghost")] = .host "ghost" := by decide
 example : findBestStreamFrom 300 "c9" cs1 "m" [("c9", "ghost")] = .panic "clusterState[node.Host()]" := by decide
+-- blind branch: a self-referencing source falls back to the recorded master; the panic branch that the model
+-- keeps needs the host to be the recorded master itself (the hypothesis `hm` above is needed)
+private def noStatus : NodeState := { pingOk := true }
+private def selfRef (master : String) : In := { streamFrom := "c1", master := master, lostTimerZero := true, candidate := .host "m" }
+example : repairCascade "c1" noStatus cs0 (selfRef "m") = [.changeMaster "m", .startSlave] := by decide
+example : repairCascade "c1" noStatus cs0 (selfRef "c1") = [.panic "performChangeMaster: host == master"] := by decide
 
 end C16
